@@ -8,6 +8,8 @@ FAMILIES = {
     "bpReset": {"quick": 150, "thorough": 3000}, # back-pressure: a frame partly written, then one stream reset/dropped/ended
     "flowBs": {"quick": 200, "thorough": 4000},  # scripted client exhausts the real server's receive windows exactly
     "flowBc": {"quick": 200, "thorough": 4000},  # scripted server drives the real client's send windows (0, negative, up)
+    "capRace": {"quick": 200, "thorough": 4000},   # competition for the connection window, then one competitor goes away
+    "ctlB": {"quick": 200, "thorough": 4000},      # SETTINGS / PING bursts while the endpoint is blocked mid-frame
     "conformSend": {"quick": 40, "thorough": 1500},  # TLC simulation runs of MC_Send (x ~3 behaviours each) replayed on the real client
 }
 
@@ -15,7 +17,7 @@ SEND_SLICE = {"module": "MC_Send", "cfg_quick": "MC_Send_quick.cfg", "cfg_thorou
               "constants": "2 streams, IW=2 CW=3 MF=2 units, sends {3}, WU {2}, SETTINGS {0,3}, reserve {2}, 1 reset; every interleaving with a frame parked in the codec",
               "timeout_thorough": 2400, "coverage": False}
 
-WIRE_AB = ["mixA", "mixAd", "bpReset", "flowBs", "flowBc"]
+WIRE_AB = ["mixA", "mixAd", "bpReset", "flowBs", "flowBc", "capRace", "ctlB"]
 
 PLAN = {
     "C01": {"rules": ["C01."], "families": WIRE_AB, "slices": [], "level": "exploration",
